@@ -154,7 +154,11 @@ int main(int argc, char** argv) {
   forbid_unowned_draws();
   register_all_families();
   bool emit = false; for (int i = 1; i < argc; ++i) if (std::string(argv[i]) == "--emit-golden") emit = true;
-  if (emit) { for (size_t i = 0; i < registry().size(); ++i) emit_golden(registry()[i], true); return 0; }
+  // the recorded observations are produced by the corpus adapters: a golden corpus written by other adapters is not comparable
+  std::string adapters; { const char* fs[] = {"harness/families.hpp", "harness/fam_quant.hpp", "harness/fam_distinct.hpp", "harness/fam_misc.hpp"}; for (int i = 0; i < 4; ++i) adapters += read_file(fs[i]); }
+  const std::string adapters_id = hex64(fnv1a(adapters));
+  if (emit) { for (size_t i = 0; i < registry().size(); ++i) emit_golden(registry()[i], true); write_file(golden_dir() + "/ADAPTERS.id", adapters_id + "\n"); return 0; }
+  if (read_file(golden_dir() + "/ADAPTERS.id").compare(0, 16, adapters_id) != 0) { fprintf(stderr, "HARNESS-ERROR: golden corpus was written by different corpus adapters; run tools/make_golden.sh\n"); return 3; }
   if (oracle::self_test() != "") { fprintf(stderr, "HARNESS-ERROR oracle hash self-test failed\n"); return 3; }
   std::vector<Task> tasks;
   { Task t; t.name = "hashing"; t.fn = [](Report& rep) { hashing(rep);
